@@ -116,6 +116,25 @@ def recorded_variants(pid: str, repo: Repo) -> list:
     return out
 
 
+def metamorphic_variants(pid: str, repo: Repo) -> list:
+    """Automatic behaviour-preserving rewrites (sa/metamorph.py: rename locals, hoist a config
+    attribute, name the result / the condition, flip a comparison, negate an if/else) of every
+    function in the property's anchor files.  Each must leave the check silent: a rule that
+    fires on one of them depends on how the code is spelled, not on what it does."""
+    import json
+
+    from .metamorph import variants
+
+    here = os.path.dirname(os.path.dirname(os.path.abspath(__file__)))
+    files = []
+    with open(os.path.join(here, "properties.jsonl"), encoding="utf-8") as fd:
+        for line in fd:
+            d = json.loads(line)
+            if d["id"] == pid:
+                files = [f for f in d["anchors"]["files"] if f.endswith(".py")]
+    return [Variant(name, overlay, "", silent=True) for name, overlay in variants(repo, files)]
+
+
 def find_func(tree: ast.Module, cls: Optional[str], name: str):
     body = tree.body
     if cls:
@@ -175,6 +194,8 @@ def run_selftest(pid: str, repo: Repo, base_res) -> dict:
             inapplicable.append(str(err))
             continue
         variants.append(v)
+    n_hand = len(variants)
+    variants += metamorphic_variants(pid, repo)
     _G.update(
         pid=pid,
         variants=variants,
@@ -185,7 +206,7 @@ def run_selftest(pid: str, repo: Repo, base_res) -> dict:
     if variants:
         ctx = mp.get_context("fork")
         with ctx.Pool(jobs) as pool:
-            results = pool.map(_work, range(len(variants)), chunksize=1)
+            results = pool.map(_work, range(len(variants)), chunksize=1 if len(variants) < 200 else 4)
     else:
         results = []
     detected = [r for r in results if r[1] in ("detected", "silent-ok")]
@@ -196,6 +217,7 @@ def run_selftest(pid: str, repo: Repo, base_res) -> dict:
         print(f"SELFTEST-MISS property={pid} variant={r[0]} status={r[1]} got={r[2]}")
     return {
         "variants": len(variants),
+        "metamorphic_variants": len(variants) - n_hand,
         "detected": len(detected),
         "missed": [f"{r[0]} ({r[1]})" for r in missed],
         "inapplicable": inapplicable,
